@@ -224,14 +224,16 @@ def risky(c, std):
 def net_case(t, form, I, ext, r, out=None, tag=""):
     """id = es<N>/<type>/<I0>.<I1>...>/<extents>/<form>/v<plan>-<inord|reord>[-eq]: plan = which_variant predicted by the mirror
     of the cost model (4 operands: top-level variant followed by the inner triple's variant); reord = the order in which that
-    plan produces the free labels differs from the declared order of first appearance."""
+    plan produces the free labels differs from the declared order of first appearance; hidord = it differs but the result has fewer
+    than two free labels, so the difference cannot be observed (these instances pass on the unchanged tree and are NOT covered by the
+    known-finding signatures of the re-ordering defect)."""
     n = len(I)
     name = {F_EINSUM: "einsum", F_CONTRACTION: "contraction"}.get(form)
     if form == F_EXPLICIT: name = "out-" + lets(out)
     plan = "%d" % r["v"] if n == 3 else "%d%d" % (r["v"], r["inner"])
     pv = r["v"] if n == 3 else 10 * r["v"] + r["inner"]
     cid = "es%d/%s/%s/%s/%s/v%s-%s%s%s" % (n, t, ".".join(lets(ls) for ls in I), ".".join(dims(ls, ext) for ls in I), name, plan,
-                                         "reord" if r["reord"] else "inord", tag, flags(r))
+                                         ("reord" if len(declared(I)) >= 2 else "hidord") if r["reord"] else "inord", tag, flags(r))
     args = [TYPES[t], str(form), str(pv), "true" if r["reord"] else "false"] + [Lt(ls) for ls in I] + [St(ls, ext) for ls in I]
     if out is not None: args.append(Lt(out))
     line = 'VF_CASE("%s", c15::net%d<%s>)' % (cid, n, ",".join(args))
@@ -271,8 +273,27 @@ def build_cases(tier, rng):
 
     for I in topologies3(tier, rng):
         emit(I, triplet, 3, 2)
-    for g, I in topologies4(tier, rng):
+    t4 = list(topologies4(tier, rng))
+    for g, I in t4:
         emit(I, quartet, 4, 2 if tier == "quick" else 3)
+    # two-valued extent assignments for the 4-operand plans whose inner triple is itself re-ordered (top variant k, inner variant 1):
+    # with only two distinct extents many labels share an extent, which is exactly where a wrong intermediate index list still has
+    # compatible shapes and only the VALUES go wrong (found by a seeded defect the distinct-extent assignments missed)
+    cap2 = 16 if tier == "quick" else 80
+    got2 = 0
+    for g, I in t4:
+        if got2 >= cap2: break
+        labs = labels_of(I)
+        for _ in range(60):
+            lo, hi = rng.sample([2, 3, 4, 5, 7], 2)
+            ext = {l: rng.choice([lo, hi]) for l in labs}
+            if prod(labs, ext) > 60000: continue
+            r = quartet(I, ext)
+            if r.get("inner") == 1 and r["v"] in (0, 3):
+                t = "d" if rng.random() < 0.7 else "f"
+                add(common, net_case(t, F_EINSUM, I, ext, r, tag="-two"))
+                got2 += 1
+                break
     return common, cxx17, stats
 
 
